@@ -166,4 +166,11 @@ P5 == <<"emit">>
 P6 == <<"thread_init", "thread_init", "free", "free">>
 P7 == <<"proc_init", "proc_fini", "proc_init">>
 Progs == {P1, P2, P3, P4, P5, P6, P7}
+\* programs that make threads meet in proc_init / proc_fini (schedule generation for the races)
+R1 == <<"proc_init", "thread_init", "free", "proc_fini">>
+R2 == <<"thread_init", "free", "proc_fini">>
+R3 == <<"proc_init", "proc_fini">>
+R4 == <<"proc_fini", "proc_init">>
+R5 == <<"proc_init", "thread_init", "emit", "proc_fini", "flush", "free">>
+RaceProgs == {R1, R2, R3, R4, R5}
 =============================================================================
